@@ -73,3 +73,117 @@ SEARCH = {'c21_stringify_input_value': ['c21_redact']}
 BOUNDED = {'C21': [dict(case='c21_redact', function='src/registry/stringify_exec_doc.rs::Registry::{stringify_exec_doc, stringify_selection_set, stringify_input_value} (through ExtensionContext::stringify_execute_doc)',
                         bound='~60 generated operations (query / mutation / subscription roots, aliases, nested fields, named and typed inline fragments, literals and variables) over a schema with secret arguments and secret input-object fields; the marker secret must not occur in the logged text',
                         why='closure-heavy iterator code over the registry (and_then / map / enumerate chains, into_const_with) is outside Verus; only the stringify_input_value kernel is under contract')]}
+
+
+# ----------------------------------------------------------------------------------------------------------------------
+# which registry entry describes each printed argument / sub-selection: E2 fragments of stringify_selection_set and stringify_exec_doc
+from vx.unit import ClosureMatch  # noqa: E402
+from specs.common import ast_types  # noqa: E402
+
+LOOKUP_SHIMS = r'''
+// field-subset shims of the registry (conformance-checked): what the meta lookups of the stringifier read
+pub struct MetaInputValue { pub ty: String, pub is_secret: bool }
+pub struct MetaField { pub name: String, pub args: StrMap<MetaInputValue>, pub ty: String }
+pub enum MetaType {
+    Scalar { name: String },
+    Object { name: String, fields: StrMap<MetaField> },
+    Interface { name: String, fields: StrMap<MetaField> },
+    Union { name: String },
+    Enum { name: String },
+    InputObject { name: String, input_fields: StrMap<MetaInputValue> },
+}
+pub struct Registry { pub types: StrMap<MetaType>, pub query_type: String, pub mutation_type: Option<String>, pub subscription_type: Option<String> }
+pub struct MetaTypeName;
+impl MetaTypeName {
+    pub uninterp spec fn spec_concrete_typename(s: Seq<char>) -> Seq<char>;
+    #[verifier::external_body]
+    pub fn concrete_typename(s: &str) -> (r: &str) ensures r@ == Self::spec_concrete_typename(s@) { unimplemented!() }
+}
+pub type FmtResult = Result<(), core::fmt::Error>;
+'''
+
+LOOKUP_SPEC = r'''
+// the schema's description of field `fname` of type `pt` (objects and interfaces have fields)
+pub open spec fn spec_field(pt: Option<&MetaType>, fname: Seq<char>) -> Option<MetaField> {
+    match pt {
+        Some(MetaType::Object { fields, .. }) => if fields.view().contains_key(fname) { Some(fields.view()[fname]) } else { None },
+        Some(MetaType::Interface { fields, .. }) => if fields.view().contains_key(fname) { Some(fields.view()[fname]) } else { None },
+        _ => None,
+    }
+}
+// the schema's description (type, secret flag) of argument `aname` of field `fname` (selected by its NAME, not its alias) of `pt`
+pub open spec fn spec_arg_meta(pt: Option<&MetaType>, fname: Seq<char>, aname: Seq<char>) -> Option<MetaInputValue> {
+    match spec_field(pt, fname) { Some(f) => if f.args.view().contains_key(aname) { Some(f.args.view()[aname]) } else { None }, None => None }
+}
+pub open spec fn spec_type(reg: &Registry, name: Seq<char>) -> Option<MetaType> { if reg.types.view().contains_key(name) { Some(reg.types.view()[name]) } else { None } }
+// the type whose fields a field's sub-selection selects from: the field's declared type with list / non-null wrappers removed
+pub open spec fn spec_child_type(reg: &Registry, pt: Option<&MetaType>, fname: Seq<char>) -> Option<MetaType> {
+    match spec_field(pt, fname) { Some(f) => spec_type(reg, MetaTypeName::spec_concrete_typename(f.ty@)), None => None }
+}
+pub open spec fn spec_root(reg: &Registry, ty: OperationType) -> Option<MetaType> {
+    match ty {
+        OperationType::Query => spec_type(reg, reg.query_type@),
+        OperationType::Mutation => match reg.mutation_type { Some(n) => spec_type(reg, n@), None => None },
+        OperationType::Subscription => match reg.subscription_type { Some(n) => spec_type(reg, n@), None => None },
+    }
+}
+pub open spec fn same_opt<T>(r: Option<&T>, s: Option<T>) -> bool { match r { Some(x) => s == Some(*x), None => s is None } }
+'''
+
+
+def lookup_unit(kf):
+    u = Unit('c21_meta_lookup', ['C21'], 'stringify_selection_set / stringify_exec_doc look the secret flag of every printed argument up under the right type, field NAME and argument name')
+    u.kf = kf
+    value_types(u)
+    ast_types(u)
+    u.prelude('registry_shim')
+    u.prelude('string_eq')
+    u.prelude('sdl_sink')
+    u.prelude('string_write')
+    u.trusted(LOOKUP_SHIMS, 'registry shims')
+    u.shim_conformance(R, ['struct MetaInputValue'], [('ty', 'String'), ('is_secret', 'bool')])
+    u.shim_conformance(R, ['struct MetaField'], [('name', 'String'), ('args', 'IndexMap<String, MetaInputValue>'), ('ty', 'String')])
+    u.shim_conformance(R, ['enum MetaType'], [('name', 'String'), ('fields', 'IndexMap<String, MetaField>')], variant='Object')
+    u.shim_conformance(R, ['enum MetaType'], [('name', 'String'), ('fields', 'IndexMap<String, MetaField>')], variant='Interface')
+    u.shim_conformance(R, ['enum MetaType'], [('name', 'String'), ('input_fields', 'IndexMap<String, MetaInputValue>')], variant='InputObject')
+    u.shim_conformance(R, ['struct Registry'], [('types', 'BTreeMap<String, MetaType>'), ('query_type', 'String'), ('mutation_type', 'Option<String>'), ('subscription_type', 'Option<String>')])
+    u.spec(LOOKUP_SPEC, 'meta lookup spec')
+    u.extract_fn(R, ['impl MetaType', 'fn fields'], wrap_impl='MetaType',
+                 sig_rewrites=[ReSub(r'IndexMap<String, MetaField>', 'StrMap<MetaField>')],
+                 ensures=['match *self { MetaType::Object { fields, .. } => r == Some(&fields), MetaType::Interface { fields, .. } => r == Some(&fields), _ => r is None }'])
+    u.extract_fn(R, ['impl MetaType', 'fn field_by_name'], wrap_impl='MetaType',
+                 rewrites=[ClosureDesugar('and_then')],
+                 ensures=['same_opt(r, spec_field(Some(self), name@))'])
+    SS = ['impl Registry', 'fn stringify_selection_set']
+    u.extract_fragment(F, SS, 'let meta_input_value = parent_type', '.and_then(|field| field.args.get(name.node.as_str()));',
+                       name='argument_meta',
+                       header="fn argument_meta<'a>(parent_type: Option<&'a MetaType>, field: &Positioned<Field>, name: &Positioned<Name>) -> (r: Option<&'a MetaInputValue>)",
+                       footer='    meta_input_value\n}',
+                       rewrites=[ClosureMatch('opt.and_then', count=2)],
+                       ensures=['same_opt(r, spec_arg_meta(parent_type, field.node.name.node@, name.node@))   // the secret flag consulted for an argument is the one the schema declares for THIS argument of THIS field (by name) of the enclosing type'])
+    u.extract_fragment(F, SS, 'let parent_type = parent_type .and_then(|ty| ty.field_by_name(', 'self.types.get(MetaTypeName::concrete_typename(&field.ty)) });',
+                       name='child_parent_type',
+                       header="fn child_parent_type<'a>(reg: &'a Registry, parent_type: Option<&'a MetaType>, field: &Positioned<Field>) -> (r: Option<&'a MetaType>)",
+                       footer='    parent_type\n}',
+                       rewrites=[ClosureMatch('opt.and_then', count=2), Sub('self.types', 'reg.types', rule='R-self')],
+                       ensures=['same_opt(r, spec_child_type(reg, parent_type, field.node.name.node@))   // a field\'s sub-selection is printed under the field\'s own (unwrapped) type'])
+    u.extract_fragment(F, SS, 'let parent_type = if let Some(name) = &inline_fragment.node.type_condition {', 'parent_type };',
+                       name='inline_fragment_parent_type',
+                       header="fn inline_fragment_parent_type<'a>(reg: &'a Registry, output: &mut String, parent_type: Option<&'a MetaType>, inline_fragment: &Positioned<InlineFragment>) -> (r: Result<Option<&'a MetaType>, core::fmt::Error>)",
+                       footer='    Ok(parent_type)\n}',
+                       rewrites=[WriteMacro(count=1, infallible=True), Sub('self.types', 'reg.types', rule='R-self')],
+                       ensures=['r is Ok ==> (match inline_fragment.node.type_condition { Some(tc) => same_opt(r->Ok_0, spec_type(reg, tc.node.on.node@)), None => r->Ok_0 == parent_type })   // `... on T { }` switches to T, `... { }` keeps the enclosing type'])
+    u.extract_fragment(F, ['impl Registry', 'fn stringify_exec_doc'], 'let root_type = match operation_definition.node.ty {', '.and_then(|name| self.types.get(name)), };',
+                       name='root_type',
+                       header="fn root_type<'a>(reg: &'a Registry, operation_definition: &Positioned<OperationDefinition>) -> (r: Option<&'a MetaType>)",
+                       footer='    root_type\n}',
+                       rewrites=[ClosureMatch('opt.and_then', count=2), Sub('self.', 'reg.', count='+', rule='R-self')],
+                       ensures=['same_opt(r, spec_root(reg, operation_definition.node.ty))   // the operation\'s selection set is printed under the root type of ITS operation kind'])
+    u.assume('E2 fragments: the four meta lookups are under contract; the surrounding printing loops (and that each looked-up meta is the one passed on to stringify_input_value) are not')
+    u.assume('registry BTreeMap / IndexMap represented by lookup-only shims (assumed contracts on std / indexmap); MetaTypeName::concrete_typename is uninterpreted')
+    u.search_case('stringify_exec_doc.rs', 'c21_redact')
+    return u
+
+
+UNITS['c21_meta_lookup'] = (['C21'], lookup_unit)
+SEARCH['c21_meta_lookup'] = ['c21_redact']
